@@ -2922,6 +2922,26 @@ func (e *FactEngine) ParseReq(src string, pos token.Pos) (*Formula, error) {
 	return e.boolForm(x, &scope{info: info, local: true}), nil
 }
 
+// PathEq is the atom "a and b denote the same value" for two path expressions in the scope at pos —
+// also for types Go's == does not apply to (slices such as net.IP): the engine only ever learns it
+// from copies.
+func (e *FactEngine) PathEq(a, b string, pos token.Pos) (*Formula, error) {
+	var canon [2]string
+	var paths []string
+	for i, src := range []string{a, b} {
+		x, err := parser.ParseExprFrom(e.p.Fset, "req", src, 0)
+		if err != nil {
+			return nil, fmt.Errorf("parse %q: %v", src, err)
+		}
+		info := &types.Info{Types: map[ast.Expr]types.TypeAndValue{}, Uses: map[*ast.Ident]types.Object{}, Defs: map[*ast.Ident]types.Object{}, Selections: map[*ast.SelectorExpr]*types.Selection{}}
+		if err := types.CheckExpr(e.p.Fset, e.fn.Pkg.Types, pos, x, info); err != nil {
+			return nil, fmt.Errorf("type-check %q: %v", src, err)
+		}
+		canon[i] = strings.TrimPrefix(e.canon(x, &scope{info: info, local: true}, &paths), "&")
+	}
+	return e.eqAtom(canon[0], canon[1], paths), nil
+}
+
 func (e *FactEngine) fnScope() *scope { return &scope{info: e.fn.Info(), local: true} }
 
 // FactsAt computes whether req holds at target; returns ok, a counter-example
